@@ -1286,10 +1286,13 @@ class ProcessPoolExecutor(Executor):
             self._pending_work_items[self._queue_count] = w
             self._work_ids.put(self._queue_count)
             self._queue_count += 1
-            # Wake up queue management thread
-            self._executor_manager_thread_wakeup.wakeup()
 
             self._ensure_executor_running()
+            # Wake up queue management thread. This must happen after the
+            # missing workers have been spawned, so that the manager thread
+            # re-arms its wait with the sentinels of the new workers:
+            # otherwise the death of such a worker would go unnoticed.
+            self._executor_manager_thread_wakeup.wakeup()
             return f
 
     submit.__doc__ = Executor.submit.__doc__
